@@ -255,6 +255,9 @@ def run(ctx):
         # a resumed parse keeps its place in the old tree: nothing touches parser state before the resume test (shared with C09.P1)
         import C09
         C09.rule_p1(ctx, F)
+        # the range-difference veto is unbounded only for a node lexed against the end of the *old document* — not for every node (shared with C01.P9)
+        import C01
+        C01.rule_lookahead_end(ctx, F)
         # an edited tree's included ranges feed the range difference that vetoes reuse (shared with C10.W2)
         import C10
         C10.rule_range_edit(ctx, F)
